@@ -30,3 +30,39 @@ VH_GROUP(pairs_layouts)
     ++ctx.witness["cross_layout_pairs"];
 }
 VH_MAIN
+
+// equal_pixels / image equality on packed pixels whose channel bits do not fill the bit field (rgb555 in uint16_t: bit 15 unused).
+// "equal_pixels returns true exactly when all corresponding pixels compare equal", and pixels compare by channel: views that agree in
+// every channel are equal whatever their unused bits hold (a byte-wise comparison is wrong here), and one differing channel bit at any
+// position makes them unequal.  Shapes 0..N x 0..N, contiguous and padded rows, the differing pixel at every position.
+VH_GROUP(equal_packed_padding)
+{
+    vh::ubsan_counts() = false;
+    namespace mp = boost::mp11;
+    using P555 = gil::packed_pixel_type<uint16_t, mp::mp_list_c<unsigned, 5, 5, 5>, gil::rgb_layout_t>::type;
+    const int N = int(ctx.B("N", 4));
+    for (int pad = 0; pad < 2; ++pad) for (int w = 0; w <= N; ++w) for (int h = 0; h <= N; ++h)
+    {
+        if (!ctx.take()) continue;
+        const int stride = w + pad;      // in pixels
+        std::vector<P555> A(size_t(stride) * h + 1, P555{uint16_t(0x7FFF)}), B(A.size(), P555{uint16_t(0x0000)});      // padding pixels differ on purpose
+        auto va = gil::interleaved_view(w, h, A.data(), std::ptrdiff_t(stride) * 2), vb = gil::interleaved_view(w, h, B.data(), std::ptrdiff_t(stride) * 2);
+        auto fill = [&]() { for (int y = 0; y < h; ++y) for (int x = 0; x < w; ++x) { uint16_t bits = uint16_t((y * 37 + x * 11 + 5) * 257u) & 0x7FFF; A[size_t(y) * stride + x] = P555{bits}; B[size_t(y) * stride + x] = P555{bits}; } };
+        const std::string base = vh::S() << "equal_packed_padding/rgb555/" << w << "x" << h << (pad ? "/padded" : "/contiguous");
+        fill();
+        ++ctx.evaluations;
+        if (!gil::equal_pixels(va, vb)) ctx.fail(base + "/identical", "equal_pixels:false-for-equal-views", "");
+        for (int y = 0; y < h; ++y) for (int x = 0; x < w; ++x)
+        {
+            fill(); B[size_t(y) * stride + x] = P555{uint16_t(A[size_t(y) * stride + x]._bitfield ^ 0x8000u)};
+            ++ctx.evaluations; ++ctx.nontrivial;
+            const std::string id = vh::S() << base << "/unused-bit@" << x << "," << y;
+            if (!gil::equal_pixels(va, vb)) ctx.fail(id, "equal_pixels:false-for-equal-views", "the views differ only in the unused bit 15 of one pixel");
+            { using CV = typename decltype(va)::const_t; if (!gil::equal_pixels(CV(va), CV(vb))) ctx.fail(id + "/const", "equal_pixels:false-for-equal-views", ""); }
+            fill(); B[size_t(y) * stride + x] = P555{uint16_t(A[size_t(y) * stride + x]._bitfield ^ 0x0001u)};
+            ++ctx.evaluations; ++ctx.nontrivial;
+            if (gil::equal_pixels(va, vb)) ctx.fail(vh::S() << base << "/channel-bit@" << x << "," << y, "equal_pixels:true-for-different-views", "");
+        }
+        ++ctx.witness["equal_packed_unused_bits"];
+    }
+}
